@@ -15,12 +15,13 @@ CLAIMED = {
          "enter is the Combiner's (C02, C07, C09). Entries of real runs are compared with an independent reference quadrature on every run.",
          "Trusted: Coq kernel+vm_compute, Coquelicot; harnesses; tools/lib/refconv.py + scipy in the patrol; eko's basis modelled by hand (third party).", "0.3 / 4 C01"),
  "C19": ("Coq theorems over an abstract field (field for blocks of 2..5 nodes, induction for the Kronecker property, lia for the block rule) and over the reals (Coquelicot: Taylor-Lagrange, "
-         "norm_RInt_le) on the hand-written model of the interpolation basis, tied by differential correspondence on eko's objects and on the real conv.convolution at and next to grid nodes",
+         "mean-value theorem, improper integrals) on the hand-written model of the interpolation basis, tied by differential correspondence on eko's objects and on the real conv.convolution at and next to grid nodes",
          "Proof: on every area of every grid the d+1 block nodes reproduce every polynomial of degree <= d exactly (d = 1..4), partition of unity, every basis function "
-         "is continuous at every node with value delta_j,node; for a function with d+1 derivatives (the last bounded by M) the interpolation error on any area of any grid is at most "
-         "(1+Lebesgue function) M h^(d+1)/(d+1)!, hence convergence under refinement; an interpolation error with sup norm E and Lipschitz constant Le changes the prediction by at most "
-         "(int|reg|/z + |loc|) E + int|sing|(1-z)/z^2 (Le x + E). PARTIAL: the bound on the Lebesgue function and the Lipschitz constant Le are hypotheses, not derived; QUADPACK's error is outside; "
-         "the run comparison (three grid levels + degree, FactScaleVar, node vs displaced x) uses calibrated bounds — a test.",
+         "is continuous at every node with value delta_j,node; the modelled piecewise basis summed with node values IS the block interpolant on every closed area; for a function with d+1 derivatives "
+         "(the last bounded by M) the interpolation error on the whole grid range is at most (1+Lam) M h^(d+1)/(d+1)! and is Lipschitz with constant Lam1 M h^(d+1)/(d+1)! + M h^d/d!, hence convergence under refinement; "
+         "such an error changes the prediction (any kernel triple, proper or improper convolution integral) by at most (int|reg|/z + |loc|) E + int|sing|(1-z)/z^2 (Le x + E): O(h^d) in total. "
+         "PARTIAL: the bounds Lam, Lam1 on the Lebesgue functions of the blocks (node geometry; satisfiable: GridExample.v) and the existence of the improper integrals are hypotheses; interpolation variable x "
+         "(log mode: f o exp); QUADPACK's error is outside; the run comparison (three grid levels + degree, FactScaleVar, unordered grid, node vs displaced x) uses calibrated bounds — a test.",
          "Trusted: Coq kernel+vm_compute; std-lib real-number axioms + classic + funext (Coquelicot); harnesses; eko's basis modelled by hand; patrol tolerances calibrated on the unchanged tree.", "0.3 / 4 C19"),
  "C02": ("Coq theorems over an abstract field (field/ring) on a hand-written model of CouplingConstants/weight builders; "
          "model tied to the code by differential correspondence evaluated with vm_compute in exact rationals",
